@@ -74,7 +74,11 @@ ItRepeating(d, n, s) ==
        THEN LET b  == d[s.srcPos + 1]
                 sk == ItSkip(d, s.srcPos, s.srcLen)
                 s1 == [s EXCEPT !.srcPos = sk.pos, !.srcLen = sk.len] IN
-            IF b <= 3 THEN ItRepeating(d, n, s1)          \* padding and zero-increment separators are not repeated
+            IF b = 1             \* a run of one-byte paddings in the window is stepped over in one go
+            THEN LET q  == XFirstNot(d, 1, s.srcPos + 1, s.srcPos + s.srcLen + 1) - 1
+                     sp == [s EXCEPT !.srcPos = q, !.srcLen = s.srcLen - (q - s.srcPos)] IN
+                 ItRepeating(d, n, sp)
+            ELSE IF b <= 3 THEN ItRepeating(d, n, s1)     \* padding and zero-increment separators are not repeated
             ELSE LET b2 == IF s.repL = 0 /\ s.repFrame + 1 >= n /\ sk.pos = s.lastLong THEN b - (b % 2) ELSE b
                      pl == ItSkipPayload(d, s.pos, s.rem, b2, s.trail) IN
                  IF pl.len < 0 THEN ItRes([s1 EXCEPT !.rem = -1], INVALID_PACKET, <<>>)
